@@ -394,6 +394,14 @@ LetNames(n) ==
 
 Injected(out, in) == LetNames(out) \ Names(in)
 
+(* names declared by an initialiser-less `let` whose spelling does not carry the reserved prefix *)
+RECURSIVE LetNamesUnreserved(_)
+LetNamesUnreserved(n) ==
+  (IF n.t = "VariableDeclaration" /\ n.v = "let"
+      /\ \A i \in 1..Len(n.c[1].c) : n.c[1].c[i].c[2].t = "Null" /\ n.c[1].c[i].c[1].t = "Identifier"
+   THEN {n.c[1].c[i].c[1].v : i \in {j \in 1..Len(n.c[1].c) : n.c[1].c[j].c[1].a \notin {"rp", "name;rp"}}} ELSE {})
+  \cup UNION {LetNamesUnreserved(n.c[i]) : i \in 1..Len(n.c)}
+
 -----------------------------------------------------------------------------
 (* Matching the erased output against the canonical input.                                 *)
 (* Result: [ok, why, devs]; devs = named deviations that were needed (known findings).     *)
